@@ -1,6 +1,125 @@
 import GramModel
+import GramModel.Parser
 import Driver.Sexp
 
-/-! Line-protocol ops of the parser model (`parse`, `parsestats`). -/
+/-! Line-protocol ops of the parser model (`parse`, `parsestats`): decoding of tokens, encoding of
+the answer (resolved term with ranges and renumbered holes, or the error ranges). -/
 
-def runParserOp (_xs : List Sx) : String := "bad-op"
+open PModel
+
+def pkindOfTag (tag : Nat) (payload : Option Nat) : Option PKind :=
+  match tag, payload with
+  | 0, none => some .asterisk | 1, none => some .boolean | 2, none => some .colon
+  | 3, none => some .doubleEquals | 4, none => some .else_ | 5, none => some .equals
+  | 6, none => some .false_ | 7, none => some .greaterThan | 8, none => some .greaterThanOrEqualTo
+  | 9, some x => some (.identifier x) | 10, none => some .if_ | 11, none => some .integer
+  | 12, some n => some (.integerLiteral n) | 13, none => some .leftCurly
+  | 14, none => some .leftParen | 15, none => some .lessThan | 16, none => some .lessThanOrEqualTo
+  | 17, none => some .minus | 18, none => some .plus | 19, none => some .rightCurly
+  | 20, none => some .rightParen | 21, none => some .slash
+  | 22, none => some (.terminator .lineBreak) | 23, none => some (.terminator .semicolon)
+  | 24, none => some .then_ | 25, none => some .thickArrow | 26, none => some .thinArrow
+  | 27, none => some .true_ | 28, none => some .type_
+  | _, _ => none
+
+def ptokOfSx : Sx → Option PTok
+  | .list [.atom tag, .atom s, .atom e] => do
+      let k ← pkindOfTag (← tag.toNat?) none
+      some ⟨k, ⟨← s.toNat?, ← e.toNat?⟩⟩
+  | .list [.atom tag, .atom s, .atom e, .atom p] => do
+      let k ← pkindOfTag (← tag.toNat?) (some (← p.toNat?))
+      some ⟨k, ⟨← s.toNat?, ← e.toNat?⟩⟩
+  | _ => none
+
+def ptoksOfSx : Sx → Option (Array PTok)
+  | .list xs => (xs.mapM ptokOfSx).map List.toArray
+  | _ => none
+
+def namesOfSx : Sx → Option (List Nat)
+  | .list xs => xs.mapM (fun x => match x with | .atom a => a.toNat? | _ => none)
+  | _ => none
+
+/-- Printer state: the renumbering of hole ids by first occurrence. -/
+abbrev HoleMap := List (Nat × Nat)
+
+def holeNumber (m : HoleMap) (id : Nat) : Nat × HoleMap :=
+  match m.lookup id with
+  | some k => (k, m)
+  | none => (m.length, (id, m.length) :: m)
+
+def rangeToString : Option SourceRange → String
+  | some r => s!"{r.start} {r.stop}"
+  | none => "- -"
+
+mutual
+partial def rtmToString (t : RTm) (m : HoleMap) : String × HoleMap :=
+  let (node, m) : String × HoleMap :=
+    match t.variant with
+    | .hole id s => let (k, m) := holeNumber m id; (s!"(h {k} {s})", m)
+    | .type => ("T", m) | .int => ("I", m) | .bool => ("B", m) | .tt => ("t", m) | .ff => ("f", m)
+    | .lit n => (s!"(n {n})", m)
+    | .var x i => (s!"(v {x} {i})", m)
+    | .lam x imp d b =>
+      let (ds, m) := rtmToString d m
+      let (bs, m) := rtmToString b m
+      (s!"(L {x} {if imp then 1 else 0} {ds} {bs})", m)
+    | .pi x imp d b =>
+      let (ds, m) := rtmToString d m
+      let (bs, m) := rtmToString b m
+      (s!"(P {x} {if imp then 1 else 0} {ds} {bs})", m)
+    | .app f a =>
+      let (fs, m) := rtmToString f m
+      let (as, m) := rtmToString a m
+      (s!"(A {fs} {as})", m)
+    | .letg defs b =>
+      let (ds, m) := rdefsToString defs m
+      let (bs, m) := rtmToString b m
+      (s!"(G {ds}{bs})", m)
+    | .neg a =>
+      let (as, m) := rtmToString a m
+      (s!"(N {as})", m)
+    | .bin o a b =>
+      let (as, m) := rtmToString a m
+      let (bs, m) := rtmToString b m
+      (s!"(O {opToString o} {as} {bs})", m)
+    | .ite c a b =>
+      let (cs, m) := rtmToString c m
+      let (as, m) := rtmToString a m
+      let (bs, m) := rtmToString b m
+      (s!"(F {cs} {as} {bs})", m)
+  (s!"(@ {rangeToString t.range} {node})", m)
+partial def rdefsToString (ds : RDefs) (m : HoleMap) : String × HoleMap :=
+  match ds with
+  | .nil => ("", m)
+  | .cons x a d r =>
+    let (as, m) := rtmToString a m
+    let (dstr, m) := rtmToString d m
+    let (rs, m) := rdefsToString r m
+    (s!"(D {x} {as} {dstr}) {rs}", m)
+end
+
+def outcomeToString : ParseOutcome → String
+  | .ok t => "ok " ++ (rtmToString t []).1
+  | .errors es =>
+    let ranges := es.flatten
+    s!"err {es.length} " ++ " ".intercalate (ranges.map (fun r => s!"({r.start} {r.stop})"))
+  | .panic => "panic"
+  | .outOfFuel => "out-of-fuel"
+
+def statsToString (hits misses : Array Nat) : String :=
+  " ".intercalate ((List.range NT.count).map (fun i => s!"{hits[i]!}:{misses[i]!}"))
+
+def runParserOp (xs : List Sx) : String :=
+  match xs with
+  | [.atom "parse", ctx, toks] =>
+    match namesOfSx ctx, ptoksOfSx toks with
+    | some ctx, some toks => outcomeToString (parseModel toks ctx)
+    | _, _ => "bad-op"
+  | [.atom "parsestats", toks] =>
+    match ptoksOfSx toks with
+    | some toks =>
+      match parseStats toks with
+      | some (h, m) => statsToString h m
+      | none => "out-of-fuel"
+    | none => "bad-op"
+  | _ => "bad-op"
